@@ -41,6 +41,21 @@ CLAIMED.update({
  "C20": ("Lean 4 theorems for every input: base64 round trip, canonical form and exact acceptance set (RFC 4648), radix parsing = round-to-nearest-even of the exact integer for every length (sticky-bit lemma) with exact errors and no panic, UTF-8 encode/lossy-decode round trip and maximal-subpart specification, inverses of the bash/dollars/xml/json escapers, hex strings, parseJson inverts the escaper and never accepts duplicate keys (exact RFC 8259 acceptance: partial, validated against Python json); tied to the code through implementation and model on digit strings to 400 digits with a non-digit at every position, all scalar values, invalid UTF-8, mutated JSON/YAML documents; Python int/json/base64/codecs/hashlib as independent oracles; std.parseYaml totality and YAML=JSON agreement by the differential run only.",
          "Lean kernel + standard axioms; digests, str::parse::<f64>, u128->f64, from_utf8_lossy and the saphyr YAML scanner are trusted/opaque; parseJson rejects lone-surrogate escapes and 1e999 by design (recorded assumption).",
          "Lean 4 proof + correspondence + Python reference oracles", "DESIGN.md §5 C20"),
+ "C03": ("Lean 4 theorems about the literal executable model of GcContext::gc (count / mark / sweep with the Vec order, direct destruction releasing out-edges, mark stack), for heaps of any size: survivors = objects reachable from external handles or views (both inclusions, so cyclic garbage dies and nothing reachable is reclaimed), survivors are reset, idempotence, return to baseline, scripts never hit 'destroyed object', inserting collections anywhere in a heap script changes no other answer; the GcTrace field-coverage table is regenerated from data.rs on every run and proved complete by decide. Tied to gc/mod.rs by heap scripts (exhaustive small shapes in thorough) through the verif-hooks driver vs the model, with a Python reachability oracle; schedule invisibility for real programs (collection period 0/1/2/3/7/default/random via the hook) and baseline object counts are checked on the implementation.",
+         "Lean kernel + standard axioms; evaluator-level invisibility is validated by the schedule sweep, not proved (the scripted mutator is proved); hooks: cargo feature verif-hooks.",
+         "Lean 4 proof (phase invariants, reachability) + generated-table decide + correspondence + schedule sweep", "DESIGN.md §5 C03"),
+ "C04": ("Lean 4 theorems on the abstract thunk machine (pending/inProgress/done protocol of DoThunk/GotThunk with restore-on-failure): a computation starts at most once per request, a thunk never forced is never run and may be replaced by a failing one without changing outcome, traces or the rest of the store (simulation), memoised results are transparent, traces compose in forcing order, aliasing a thunk (local / identity function / one-element array / one-field object) or adding dead thunks preserves outcomes one frame deeper. Program-level rewrite invariance is partial (stated over Core syntax, C04_rewrite_invariance_full) and is decided by the metamorphic run: every rewrite kind at random sites of generated programs must leave value, error and std.trace output unchanged on the implementation; evaluation-count templates; trace sequences compared with the evaluator model.",
+         "Lean kernel + standard axioms; the coincidence lemma between the full evaluator model and the thunk machine is not proved; rewrites add frames, so StackOverflow outcomes are skipped.",
+         "Lean 4 proof (state-order invariant, simulation) + metamorphic testing + correspondence", "DESIGN.md §5 C04"),
+ "C10": ("Lean 4 theorems: every handler of the evaluator is bracketed (decide over the push/delay table extracted from eval/*.rs on every run, plus token-level checks of the accounting primitives), hence on the abstract state-stack machine len = #trace - #delayed in every reachable state, no counter underflow, get_stack_trace never fails, len = 0 on an empty stack, an overflow is reported at once and larger limits change no non-overflow outcome; self-dependency through a cycle of k thunks ends in InfiniteRecursion iff k <= limit else StackOverflow; and on the full evaluator model: raising the limit never changes a non-overflow outcome (C10_eval_limit_monotone, relational argument). Tied to the code by recursion shapes x limits around the boundary (exact agreement of the overflow boundary with the model), monotonicity in the limit checked on the implementation, and native-stack probes to depth 2*10^5.",
+         "Lean kernel + standard axioms; the extractor's path language over-approximates control flow (documented); an endless tailstrict self-call is outside the property's antecedent.",
+         "Lean 4 proof (generated-table decide, machine invariant, relational monotonicity) + correspondence", "DESIGN.md §5 C10"),
+ "C11": ("Lean 4 theorems on the thunk machine with request histories: memoisation consistency is an invariant of every request (successful, failing, gc), every memoised value is the thunk's denotation, re-evaluating a thunk gives the same outcome, the i-th outcome of any history equals the pristine outcome unless that is StackOverflow (then it is StackOverflow or the larger-limit value: the recorded caveat, with witness), collections are irrelevant. Tied to the code by generated histories over sources sharing imported libraries (shared vs fresh Program per request, same limit) and by the evaluator-model history; failing requests, limit changes and explicit gc interleaved.",
+         "Lean kernel + standard axioms; std.trace output is not compared across histories; known finding c11:memoised-depth.",
+         "Lean 4 proof (invariant over request histories) + correspondence + fresh-vs-shared differential oracle", "DESIGN.md §5 C11"),
+ "C19": ("Lean 4 theorems over a literal model of format.rs for every host digit generator, code, value, width and precision: a field has at least `width` characters (array, object and whole-format forms), flag laws (-, 0, +, space, #), integer digit strings evaluate back to the value in radix 8/10/16, precision = minimum digits, %% literal, parser totality with the exact error, argument accounting, host precision never above 1100 (no host panic). Tied to the code through implementation and model (host digit strings supplied by the implementation), with Python's % operator as digit-exact oracle on the shared subset and shape invariants for g/G.",
+         "Lean kernel + standard axioms; the host formatter's digit generation is a parameter (trusted); %g below 1, -0.0 sign and negative * are recorded deviations from C/Python, not violations.",
+         "Lean 4 proof + correspondence + Python reference oracle", "DESIGN.md §5 C19"),
 })
 NOT_YET = "check not built yet in this round (no machinery committed for it)"
 
